@@ -15,7 +15,7 @@ LEVEL = "fault_enumeration"
 RULE = ("Case = generated recording (probe metadata with 1..384 channels, or a metadata-free flat binary; ns 1..600 not a "
         "multiple of the chunk; chunk 7..97 samples; 1/2 compression threads) + a history of 3..8 operations drawn by "
         "Hypothesis (model-based): compress(keep), decompress(keep, overwrite), decompress_to_scratch(dir|same folder), "
-        "reopen through the bin / cbin / meta path (built directly, with open=False + open(), from a str path, or from the data file alone in another folder with explicit meta_file / ch_file), each optionally with a failure injected. For every compress / scratch "
+        "continue with the same Reader object after an in-place compress / decompress (close + open), reopen through the bin / cbin / meta path (built directly, with open=False + open(), from a str path, or from the data file alone in another folder with explicit meta_file / ch_file), each optionally with a failure injected. For every compress / scratch "
         "operation of the history ALL fault points are enumerated (an I/O error at every chunk index, in the "
         "post-compression verification and at the publishing rename, and a process death (BaseException) before every "
         "compression batch / while the scratch output is open) on a copy of the directory. Oracle: (a) reads through cbin == reads through bin == "
@@ -60,9 +60,11 @@ def _case(draw):
             o["chunk"] = draw(st.one_of(st.none(), st.integers(7, 97)))  # None: the recording's usual chunk size
             o["fault"] = draw(st.sampled_from([None, None, "chunk", "check"]))
             o["k"] = draw(st.integers(0, 10 ** 6))
+            o["reuse"] = draw(st.booleans())  # keep using the same Reader object afterwards (re-opened)
         elif op == "decompress":
             o["keep"] = draw(st.booleans())
             o["overwrite"] = draw(st.booleans())
+            o["reuse"] = draw(st.booleans())
             o["fault"] = draw(st.sampled_from([None, None, "chunk"]))
             o["k"] = draw(st.integers(0, 10 ** 6))
         elif op == "scratch":
@@ -275,6 +277,24 @@ def _copy_world(w, ctx, dst):
     return w2
 
 
+def _same_reader_continues(w, sr, o, what, target):
+    """The Reader object that performed an in-place operation keeps being used (keep_original=False is documented as
+    modifying the current reader in place): after close() + open() it must read the recording like a fresh one."""
+    ctx = w.ctx
+    ctx.label("same_reader_after_" + what)
+
+    def _reopen():
+        sr.close()
+        sr.open()
+    if ctx.call("C02.reopen_same_reader", _reopen) is ctx.CRASH:
+        return
+    if not o["keep"]:
+        if not ctx.check(sr.file_bin is not None and Path(sr.file_bin) == target, "C02.inplace_reader_target",
+                         lambda: f"after {what}(keep_original=False) the reader points at {sr.file_bin}, expected {target.name}"):
+            return
+    w.compare_reads(sr, f"same reader object after {what}(keep_original={o['keep']})")
+
+
 def _do_compress(w, o, fault_at=None, fault_kind=None):
     """Returns 'ok' | 'fault' | 'crash'. Performs Reader(bin).compress_file with the requested options."""
     import mtscomp
@@ -307,6 +327,12 @@ def _do_compress(w, o, fault_at=None, fault_kind=None):
                 r = ctx.call("C02.compress_file", sr.compress_file, expect=(faults.InjectedFault,), **kw)
             except faults.Crash:
                 killed = True
+        if (o.get("reuse") and fault_kind is None and fault_at is None and not killed and r is not ctx.CRASH
+                and not isinstance(r, BaseException) and not cnt.fired):
+            prev = w.cur_chunk
+            w.cur_chunk = o.get("chunk") or w.case["chunk"]
+            _same_reader_continues(w, sr, o, "compress_file", w.cbin)
+            w.cur_chunk = prev
     finally:
         try:
             sr.close()
@@ -553,6 +579,8 @@ def run_case(case, ctx):
                     with faults.patched(cnt, targets):
                         r = ctx.call("C02.decompress_file", sr.decompress_file, keep_original=o["keep"], overwrite=o["overwrite"],
                                      expect=(faults.InjectedFault, ValueError) if (had_bin and not o["overwrite"]) else (faults.InjectedFault,))
+                    if o.get("reuse") and not fk and r is not ctx.CRASH and not isinstance(r, BaseException) and not cnt.fired:
+                        _same_reader_continues(w, sr, o, "decompress_file", w.bin)
                 finally:
                     try:
                         sr.close()
